@@ -546,9 +546,11 @@ def build_cpmc_system(spec, harness=False):
             chol[i, i, i] = np.sqrt(u)
     else:
         chol = np.zeros((n, n, n))
+    # optional spin-dependent one-body term: a staggered pinning field +h on up, -h on down
+    pin = spec.get("pinning", 0.0) * np.diag([(-1.0) ** i for i in range(n)])
     ham_data = {
         "h0": jnp.array(0.0),
-        "h1": jnp.array(np.array([h1, h1])),
+        "h1": jnp.array(np.array([h1 + pin, h1 - pin])),
         "chol": jnp.array(chol.reshape(n, n * n)),
         "ene0": 0.0,
         "u": u,
@@ -590,3 +592,26 @@ def build_cpmc_system(spec, harness=False):
     s.ham_data = s.ham.build_propagation_intermediates(hd, s.prop, s.trial, s.wave_data)
     s.init_walkers = [jnp.array(np.array([ca + 0.0j] * spec["n_walkers"])), jnp.array(np.array([cb + 0.0j] * spec["n_walkers"]))]
     return s
+
+
+
+def build_intermediates(s, prop, reuse=False):
+    """ham_data with measurement + propagation intermediates for system s.  With reuse=True the
+    dict has a history: it was first built for ANOTHER Hamiltonian (Cholesky vectors scaled by
+    0.5, h1 shifted), then its integrals were overwritten and the intermediates rebuilt on the same
+    dict - which must give exactly what a fresh dict gives."""
+    import jax.numpy as jnp
+
+    if not reuse:
+        hd = s.ham.build_measurement_intermediates(dict(s.ham_data_raw), s.trial, s.wave_data)
+        return s.ham.build_propagation_intermediates(hd, prop, s.trial, s.wave_data)
+    other = dict(s.ham_data_raw)
+    other["chol"] = 0.5 * jnp.array(s.ham_data_raw["chol"])
+    other["h1"] = jnp.array(s.ham_data_raw["h1"]) + 0.1 * jnp.eye(s.ham_data_raw["h1"].shape[-1])[None]
+    hd = s.ham.build_measurement_intermediates(other, s.trial, s.wave_data)
+    hd = s.ham.build_propagation_intermediates(hd, prop, s.trial, s.wave_data)
+    hd = dict(hd)  # same keys (all cached intermediates stay in place), integrals overwritten
+    for k in ("h0", "h1", "chol", "ene0"):
+        hd[k] = s.ham_data_raw[k]
+    hd = s.ham.build_measurement_intermediates(hd, s.trial, s.wave_data)
+    return s.ham.build_propagation_intermediates(hd, prop, s.trial, s.wave_data)
